@@ -1,17 +1,359 @@
 /- helper lemmas and the proofs behind WD.Props.C16 -/
 import WD.Model.SkipQueue
 import WD.Spec.SkipQueueSpec
-namespace WD.Proofs
+namespace WD.ProofsSQ
 open WD.SQ
+
+/-! ### history projections -/
+
+@[simp] theorem enqs_nil : enqs [] = [] := rfl
+@[simp] theorem gots_nil : gots [] = [] := rfl
+@[simp] theorem enqs_append_enq (h : List Obs) (tid : Nat) (x : Item) :
+    enqs (h ++ [.enq tid x]) = enqs h ++ [x] := by simp [enqs, List.filterMap_append]
+@[simp] theorem enqs_append_got (h : List Obs) (tid : Nat) (x : Item) :
+    enqs (h ++ [.got tid x]) = enqs h := by simp [enqs, List.filterMap_append]
+@[simp] theorem enqs_append_dropped (h : List Obs) (tid : Nat) (x y : Item) :
+    enqs (h ++ [.dropped tid x y]) = enqs h := by simp [enqs, List.filterMap_append]
+@[simp] theorem gots_append_enq (h : List Obs) (tid : Nat) (x : Item) :
+    gots (h ++ [.enq tid x]) = gots h := by simp [gots, List.filterMap_append]
+@[simp] theorem gots_append_got (h : List Obs) (tid : Nat) (x : Item) :
+    gots (h ++ [.got tid x]) = gots h ++ [x] := by simp [gots, List.filterMap_append]
+@[simp] theorem gots_append_dropped (h : List Obs) (tid : Nat) (x y : Item) :
+    gots (h ++ [.dropped tid x y]) = gots h := by simp [gots, List.filterMap_append]
+
+/-! ### items still to be offered -/
+
+/-- the item a thread is in the middle of offering -/
+def pcItems : Pc → List Item
+  | .putRead1 x => [x]
+  | .putRead2 x => [x]
+  | .putAcq x => [x]
+  | _ => []
+
+def threadPend (t : Thread) : List Item := pcItems t.pc ++ opPuts t.script
+
+/-- every item that may still be enqueued -/
+def pend (s : State) : List Item := s.threads.flatMap threadPend
+
+/-- the thread record written by `arrive` -/
+def arriveT (t : Thread) : Thread :=
+  match t.script with
+  | [] => { t with pc := .done, script := [] }
+  | .put x :: rest => { t with pc := .putRead1 x, script := rest, notified := false }
+  | .get :: rest => { t with pc := .getAcq, script := rest, notified := false }
+
+theorem arrive_eq (s : State) (tid : Nat) (t : Thread) :
+    arrive s tid t = s.setThread tid (arriveT t) := by
+  obtain ⟨pc, script, n⟩ := t
+  unfold arrive arriveT
+  match script with
+  | [] => rfl
+  | .put x :: rest => rfl
+  | .get :: rest => rfl
+
+theorem threadPend_arriveT (t : Thread) : threadPend (arriveT t) = opPuts t.script := by
+  obtain ⟨pc, script, n⟩ := t
+  unfold arriveT
+  match script with
+  | [] => rfl
+  | .put x :: rest => rfl
+  | .get :: rest => rfl
+
+@[simp] theorem setThread_queue (s : State) (tid : Nat) (t : Thread) :
+    (s.setThread tid t).queue = s.queue := rfl
+@[simp] theorem setThread_last (s : State) (tid : Nat) (t : Thread) :
+    (s.setThread tid t).last = s.last := rfl
+@[simp] theorem setThread_hist (s : State) (tid : Nat) (t : Thread) :
+    (s.setThread tid t).hist = s.hist := rfl
+
+@[simp] theorem notifyOne_queue (s : State) : (notifyOne s).queue = s.queue := by
+  unfold notifyOne; split
+  · rfl
+  · split <;> rfl
+@[simp] theorem notifyOne_last (s : State) : (notifyOne s).last = s.last := by
+  unfold notifyOne; split
+  · rfl
+  · split <;> rfl
+@[simp] theorem notifyOne_hist (s : State) : (notifyOne s).hist = s.hist := by
+  unfold notifyOne; split
+  · rfl
+  · split <;> rfl
+
+@[simp] theorem arrive_queue (s : State) (tid : Nat) (t : Thread) :
+    (arrive s tid t).queue = s.queue := by rw [arrive_eq]; rfl
+@[simp] theorem arrive_last (s : State) (tid : Nat) (t : Thread) :
+    (arrive s tid t).last = s.last := by rw [arrive_eq]; rfl
+@[simp] theorem arrive_hist (s : State) (tid : Nat) (t : Thread) :
+    (arrive s tid t).hist = s.hist := by rw [arrive_eq]; rfl
+
+theorem flatMap_set_split {α β : Type} (f : α → List β) :
+    ∀ (l : List α) (i : Nat) (a : α), l[i]? = some a →
+      ∃ A B, l.flatMap f = A ++ f a ++ B ∧ ∀ a', (l.set i a').flatMap f = A ++ f a' ++ B := by
+  intro l
+  induction l with
+  | nil => intro i a h; simp at h
+  | cons b l ih =>
+    intro i a h
+    cases i with
+    | zero =>
+      simp at h
+      subst h
+      exact ⟨[], l.flatMap f, by simp, by simp⟩
+    | succ i =>
+      simp at h
+      obtain ⟨A, B, h1, h2⟩ := ih i a h
+      refine ⟨f b ++ A, B, by simp [h1], ?_⟩
+      intro a'
+      simp [h2]
+
+theorem pend_split (s : State) (tid : Nat) (t : Thread) (h : s.thread? tid = some t) :
+    ∃ A B, pend s = A ++ threadPend t ++ B ∧
+      ∀ t', pend (s.setThread tid t') = A ++ threadPend t' ++ B :=
+  flatMap_set_split threadPend s.threads tid t h
+
+theorem setThread_thread (s : State) (tid : Nat) (t t' : Thread) (h : s.thread? tid = some t) :
+    (s.setThread tid t').thread? tid = some t' := by
+  unfold State.thread? at *
+  unfold State.setThread
+  have : tid < s.threads.length := by
+    rcases Nat.lt_or_ge tid s.threads.length with h' | h'
+    · exact h'
+    · rw [List.getElem?_eq_none h'] at h; cases h
+  simp [this]
+
+theorem notifyOne_pend (s : State) : pend (notifyOne s) = pend s := by
+  unfold notifyOne; split
+  · rfl
+  · split
+    · rename_i _ w rest _ _ t ht
+      obtain ⟨A, B, h1, h2⟩ := pend_split s w t ht
+      show pend (s.setThread w { t with notified := true }) = pend s
+      rw [h1, h2]; rfl
+    · rfl
+
+theorem notifyOne_thread (s : State) (tid : Nat) (t : Thread) (h : s.thread? tid = some t) :
+    ∃ t2, (notifyOne s).thread? tid = some t2 ∧ threadPend t2 = threadPend t := by
+  unfold notifyOne; split
+  · exact ⟨t, h, rfl⟩
+  · split
+    · rename_i _ w rest _ _ tw htw
+      by_cases hw : w = tid
+      · subst hw
+        refine ⟨{ tw with notified := true }, ?_, ?_⟩
+        · exact setThread_thread s w tw _ htw
+        · rw [htw] at h; cases h; rfl
+      · refine ⟨t, ?_, rfl⟩
+        unfold State.thread? at *
+        simp [State.setThread, hw, h]
+    · exact ⟨t, h, rfl⟩
+
+/-! ### the invariant, on the components of a state
+
+`D` is the distinctness hypothesis on the scripts: the FIFO part holds unconditionally, the rest
+only when every `put` offers a distinct object. -/
+
+structure InvC (D : Prop) (q : List Item) (l : Option Item) (h : List Obs) (p : List Item) : Prop where
+  fifo : enqs h = gots h ++ q
+  nodup : D → ((enqs h ++ p).map Item.uid).Nodup
+  last : D → l = q.getLast?
+  dropped : D → ∀ tid x y, Obs.dropped tid x y ∈ h → x.val = y.val ∧ y ∈ enqs h
+
+theorem InvC.sub {D q l h p p'} (hi : InvC D q l h p) (hs : List.Sublist p' p) : InvC D q l h p' :=
+  { fifo := hi.fifo
+    nodup := fun d => (hi.nodup d).sublist (((List.Sublist.refl _).append hs).map _)
+    last := hi.last
+    dropped := hi.dropped }
+
+theorem InvC.drop {D q l h p} (hi : InvC D q l h p) (tid : Nat) (x y : Item)
+    (hl : l = some y) (hv : x.val = y.val) : InvC D q l (h ++ [.dropped tid x y]) p := by
+  refine ⟨by simpa using hi.fifo, by simpa using hi.nodup, hi.last, ?_⟩
+  intro d tid' x' y' hm
+  have hy : y ∈ enqs h := by
+    have := hi.last d
+    rw [hl] at this
+    rw [hi.fifo]
+    exact List.mem_append_right _ (List.mem_of_getLast? this.symm)
+  simp only [List.mem_append, List.mem_singleton, enqs_append_dropped] at hm ⊢
+  rcases hm with hm | hm
+  · exact hi.dropped d _ _ _ hm
+  · cases hm; exact ⟨hv, hy⟩
+
+theorem InvC.enq {D q l h A r B} (x : Item) (tid : Nat) (hi : InvC D q l h (A ++ (x :: r) ++ B)) :
+    InvC D (q ++ [x]) (some x) (h ++ [.enq tid x]) (A ++ r ++ B) := by
+  refine ⟨by simp [hi.fifo], ?_, by simp, ?_⟩
+  · intro d
+    have := hi.nodup d
+    refine (List.Perm.nodup_iff (List.Perm.map _ ?_)).mp this
+    simp only [enqs_append_enq, List.append_assoc, List.cons_append, List.nil_append]
+    refine List.Perm.append_left _ ?_
+    exact List.perm_middle
+  · intro d tid' x' y' hm
+    simp only [List.mem_append, List.mem_singleton, enqs_append_enq] at hm ⊢
+    rcases hm with hm | hm
+    · have := hi.dropped d _ _ _ hm
+      exact ⟨this.1, Or.inl this.2⟩
+    · cases hm
+
+/-- `_last_item` after the consumer popped `x` -/
+def popLast (l : Option Item) (x : Item) : Option Item :=
+  match l with
+  | some y => if y.uid = x.uid then none else some y
+  | none => none
+
+theorem InvC.got {D x rest l h p} (tid : Nat) (hi : InvC D (x :: rest) l h p) :
+    InvC D rest (popLast l x) (h ++ [.got tid x]) p := by
+  refine ⟨by simp [hi.fifo], by simpa using hi.nodup, ?_, ?_⟩
+  · intro d
+    have hl := hi.last d
+    have hn := hi.nodup d
+    rw [hi.fifo] at hn
+    cases rest with
+    | nil => subst hl; simp [popLast]
+    | cons z r =>
+      rw [List.getLast?_cons_cons] at hl
+      subst hl
+      have hmem : (z :: r).getLast (by simp) ∈ z :: r := List.getLast_mem _
+      rw [List.getLast?_eq_some_getLast (by simp)]
+      have hne : ((z :: r).getLast (by simp)).uid ≠ x.uid := by
+        intro he
+        simp only [List.map_append, List.map_cons, List.append_assoc, List.cons_append] at hn
+        have h2 := (List.nodup_append.mp hn).2.1
+        have h3 := (List.nodup_cons.mp h2).1
+        apply h3
+        have hm2 : x.uid ∈ (z :: r).map Item.uid := by
+          rw [← he]; exact List.mem_map_of_mem hmem
+        simp only [List.map_cons, List.mem_cons, List.mem_append] at hm2 ⊢
+        rcases hm2 with hm2 | hm2
+        · exact Or.inl hm2
+        · exact Or.inr (Or.inl hm2)
+      simp [popLast, hne]
+  · intro d tid' x' y' hm
+    simp only [List.mem_append, List.mem_singleton, enqs_append_got] at hm ⊢
+    rcases hm with hm | hm
+    · exact hi.dropped d _ _ _ hm
+    · cases hm
+
+/-! ### the invariant on states, preserved by `step` -/
+
+def Inv (D : Prop) (s : State) : Prop := InvC D s.queue s.last s.hist (pend s)
+
+theorem Inv.setThread {D s tid t0} (t' : Thread) (hi : Inv D s) (ht : s.thread? tid = some t0)
+    (hs : List.Sublist (threadPend t') (threadPend t0)) : Inv D (s.setThread tid t') := by
+  obtain ⟨A, B, h1, h2⟩ := pend_split s tid t0 ht
+  unfold Inv at *
+  rw [h2 t']
+  rw [h1] at hi
+  exact hi.sub (((List.Sublist.refl A).append hs).append (List.Sublist.refl B))
+
+theorem Inv.arrive {D s tid t0} (t : Thread) (hi : Inv D s) (ht : s.thread? tid = some t0)
+    (hs : List.Sublist (opPuts t.script) (threadPend t0)) : Inv D (arrive s tid t) := by
+  rw [arrive_eq]
+  exact hi.setThread _ ht (by rw [threadPend_arriveT]; exact hs)
+
+theorem Inv.getLocked {D s tid t0} (t : Thread) (hi : Inv D s) (ht : s.thread? tid = some t0)
+    (hs : List.Sublist (opPuts t.script) (threadPend t0)) :
+    Inv D (getLocked s tid t) := by
+  unfold SQ.getLocked
+  split
+  · have : Inv D (s.setThread tid { t with pc := .getWait, notified := false }) :=
+      hi.setThread _ ht (by simpa [threadPend, pcItems] using hs)
+    exact this
+  · rename_i x rest hq
+    refine Inv.arrive (t0 := t0) t ?_ ?_ hs
+    · unfold Inv at *
+      rw [hq] at hi
+      exact hi.got tid
+    · exact ht
+
+theorem step_inv {D s tid s'} (hi : Inv D s) (hs : step s tid = some s') : Inv D s' := by
+  unfold step at hs
+  split at hs
+  · cases hs
+  split at hs
+  · cases hs
+  rename_i t ht
+  have hsub : List.Sublist (opPuts t.script) (threadPend t) := List.sublist_append_right _ _
+  split at hs
+  · -- begin
+    cases hs
+    exact hi.arrive t ht hsub
+  · -- putRead1
+    rename_i x hpc
+    split at hs <;> cases hs <;> exact hi.setThread _ ht (by simp [threadPend, pcItems, hpc])
+  · -- putRead2
+    rename_i x hpc
+    split at hs
+    · cases hs; exact hi.setThread _ ht (by simp [threadPend, pcItems, hpc])
+    · rename_i y hl
+      split at hs
+      · rename_i hv
+        cases hs
+        refine Inv.arrive (t0 := t) t ?_ ?_ hsub
+        · exact InvC.drop hi tid x y hl hv
+        · exact ht
+      · cases hs; exact hi.setThread _ ht (by simp [threadPend, pcItems, hpc])
+  · -- putAcq
+    rename_i x hpc
+    cases hs
+    rw [arrive_eq]
+    let s1 : State := { s with queue := s.queue ++ [x], last := some x, hist := s.hist ++ [.enq tid x] }
+    obtain ⟨t2, ht2, hp2⟩ := notifyOne_thread s1 tid t ht
+    obtain ⟨A, B, h1, h2⟩ := pend_split (notifyOne s1) tid t2 ht2
+    have h3 : pend s = A ++ (x :: opPuts t.script) ++ B := by
+      have : pend s = pend s1 := rfl
+      rw [this, ← notifyOne_pend s1, h1, hp2]
+      simp [threadPend, pcItems, hpc]
+    unfold Inv at *
+    rw [h2, threadPend_arriveT]
+    rw [h3] at hi
+    simpa [s1] using hi.enq x tid
+  · -- getAcq
+    cases hs
+    exact hi.getLocked t ht hsub
+  · -- getWait
+    cases hs
+    exact hi.getLocked _ ht hsub
+  · cases hs
+
+theorem init_inv (scripts : List (List Op)) : Inv (distinctPuts scripts) (init scripts) := by
+  refine ⟨rfl, ?_, fun _ => rfl, fun _ _ _ _ hm => by simp [init] at hm⟩
+  intro d
+  have : pend (init scripts) = scripts.flatMap opPuts := by
+    simp [pend, init, List.flatMap_map, threadPend, pcItems]
+  rw [this]
+  simpa [init, distinctPuts] using d
+
+theorem run_inv {D} (sched : List Nat) : ∀ s, Inv D s → Inv D (run s sched) := by
+  induction sched with
+  | nil => intro s hi; exact hi
+  | cons a rest ih =>
+    intro s hi
+    show Inv D (run ((step s a).getD s) rest)
+    apply ih
+    cases h : step s a with
+    | none => exact hi
+    | some s' => exact step_inv hi h
+
+theorem reach_inv (scripts : List (List Op)) (sched : List Nat) :
+    Inv (distinctPuts scripts) (run (init scripts) sched) :=
+  run_inv sched _ (init_inv scripts)
+
+/-! ### the theorems used by WD.Props.C16 -/
 
 theorem sq_fifo_no_loss (scripts : List (List Op)) (sched : List Nat) :
     enqs (run (init scripts) sched).hist =
-      gots (run (init scripts) sched).hist ++ (run (init scripts) sched).queue := by
-  sorry
+      gots (run (init scripts) sched).hist ++ (run (init scripts) sched).queue :=
+  (reach_inv scripts sched).fifo
 
 theorem sq_last_is_tail (scripts : List (List Op)) (sched : List Nat) (h : distinctPuts scripts) :
-    (run (init scripts) sched).last = (run (init scripts) sched).queue.getLast? := by
-  sorry
+    (run (init scripts) sched).last = (run (init scripts) sched).queue.getLast? :=
+  (reach_inv scripts sched).last h
+
+theorem enabled_of_pc {s : State} {tid : Nat} {t : Thread} (ht : s.thread? tid = some t)
+    (h1 : t.pc ≠ .done) (h2 : t.pc ≠ .getWait) : enabled s tid = true := by
+  unfold enabled
+  rw [ht]
+  split <;> simp_all
 
 theorem sq_only_duplicates_dropped (scripts : List (List Op)) (sched : List Nat) (h : distinctPuts scripts)
     (tid : Nat) (s' : State) (x y : Item)
@@ -19,30 +361,89 @@ theorem sq_only_duplicates_dropped (scripts : List (List Op)) (sched : List Nat)
     (hd : s'.hist = (run (init scripts) sched).hist ++ [.dropped tid x y]) :
     x.val = y.val ∧ (run (init scripts) sched).queue.getLast? = some y ∧
       (enqs (run (init scripts) sched).hist).getLast? = some y := by
-  sorry
+  have hi := reach_inv scripts sched
+  generalize run (init scripts) sched = s at *
+  have key : x.val = y.val ∧ s.last = some y := by
+    have hne : ∀ o : Obs, s.hist ≠ s.hist ++ [o] := by
+      intro o he
+      have := congrArg List.length he
+      simp at this
+    unfold step at hs
+    split at hs
+    · cases hs
+    split at hs
+    · cases hs
+    rename_i t ht
+    split at hs
+    · cases hs; simp at hd
+    · split at hs <;> cases hs <;> simp at hd
+    · rename_i x' hpc
+      split at hs
+      · cases hs; simp at hd
+      · rename_i y' hl
+        split at hs
+        · rename_i hv
+          cases hs
+          simp at hd
+          obtain ⟨hx, hy⟩ := hd
+          subst hx; subst hy
+          exact ⟨hv, hl⟩
+        · cases hs; simp at hd
+    · cases hs; simp at hd
+    · cases hs
+      unfold getLocked at hd
+      split at hd <;> simp at hd
+    · cases hs
+      unfold getLocked at hd
+      split at hd <;> simp at hd
+    · cases hs
+  have hq : s.queue.getLast? = some y := by rw [← hi.last h]; exact key.2
+  refine ⟨key.1, hq, ?_⟩
+  rw [hi.fifo]
+  simp [List.getLast?_append, hq]
 
 theorem sq_dropped_equal (scripts : List (List Op)) (sched : List Nat) (h : distinctPuts scripts)
     (tid : Nat) (x y : Item) (hd : Obs.dropped tid x y ∈ (run (init scripts) sched).hist) :
-    x.val = y.val ∧ y ∈ enqs (run (init scripts) sched).hist := by
-  sorry
+    x.val = y.val ∧ y ∈ enqs (run (init scripts) sched).hist :=
+  (reach_inv scripts sched).dropped h tid x y hd
 
 theorem sq_accepted_after_get (scripts : List (List Op)) (sched : List Nat) (h : distinctPuts scripts)
     (tid : Nat) (t : Thread) (x : Item)
     (ht : (run (init scripts) sched).thread? tid = some t) (hpc : t.pc = .putRead1 x)
     (hq : (run (init scripts) sched).queue = []) :
     ∃ s1 t1, step (run (init scripts) sched) tid = some s1 ∧ s1.thread? tid = some t1 ∧ t1.pc = .putAcq x := by
-  sorry
+  have hi := reach_inv scripts sched
+  generalize run (init scripts) sched = s at *
+  have hl : s.last = none := by rw [hi.last h, hq]; rfl
+  have he : enabled s tid = true := enabled_of_pc ht (by simp [hpc]) (by simp [hpc])
+  refine ⟨s.setThread tid { t with pc := .putAcq x }, { t with pc := .putAcq x }, ?_,
+    setThread_thread s tid t _ ht, rfl⟩
+  unfold step
+  simp [he, ht, hpc, hl]
 
 theorem sq_separated (scripts : List (List Op)) (sched : List Nat) (h : distinctPuts scripts)
     (tid : Nat) (t : Thread) (x y : Item)
     (ht : (run (init scripts) sched).thread? tid = some t) (hpc : t.pc = .putRead2 x)
     (hq : (run (init scripts) sched).queue.getLast? = some y) (hne : x.val ≠ y.val) :
     ∃ s1 t1, step (run (init scripts) sched) tid = some s1 ∧ s1.thread? tid = some t1 ∧ t1.pc = .putAcq x := by
-  sorry
+  have hi := reach_inv scripts sched
+  generalize run (init scripts) sched = s at *
+  have hl : s.last = some y := by rw [hi.last h, hq]
+  have he : enabled s tid = true := enabled_of_pc ht (by simp [hpc]) (by simp [hpc])
+  refine ⟨s.setThread tid { t with pc := .putAcq x }, { t with pc := .putAcq x }, ?_,
+    setThread_thread s tid t _ ht, rfl⟩
+  unfold step
+  simp [he, ht, hpc, hl, hne]
 
 theorem sq_append_enqueues (tid : Nat) (t : Thread) (x : Item) (s : State)
     (ht : s.thread? tid = some t) (hpc : t.pc = .putAcq x) :
     ∃ s1, step s tid = some s1 ∧ s1.queue = s.queue ++ [x] ∧ s1.hist = s.hist ++ [.enq tid x] := by
-  sorry
+  have he : enabled s tid = true := enabled_of_pc ht (by simp [hpc]) (by simp [hpc])
+  refine ⟨arrive (notifyOne { s with queue := s.queue ++ [x], last := some x,
+                                      hist := s.hist ++ [.enq tid x] }) tid t, ?_, ?_, ?_⟩
+  · unfold step
+    simp [he, ht, hpc]
+  · simp
+  · simp
 
-end WD.Proofs
+end WD.ProofsSQ
